@@ -11,13 +11,13 @@ use crate::verif::drivers::common::{emit_violation, Params, Tally};
 use crate::verif::gen;
 use crate::verif::model::{GRule, RuleStatus};
 use crate::verif::util::{fnv_str, mix, Rng, J};
-use crate::verif::vsys::{Clock, Op, RULER_DIR};
+use crate::verif::vsys::{Clock, Op, ruler_dir};
 use crate::verif::world::{self, Obs, SchedChoice, Verdict, Violation, WErr, World};
 
 fn history_of(world : &World, rule : &GRule) -> Option<RuleHistory>
 {
     let ticket = crate::rule::Rule::new(rule.targets(), rule.sources.clone(), rule.command_lines()).get_ticket();
-    let bytes = world.sys.read_file(&format!("{}/history/{}", RULER_DIR, ticket.human_readable()))?;
+    let bytes = world.sys.read_file(&format!("{}/history/{}", ruler_dir(), ticket.human_readable()))?;
     bincode::deserialize::<RuleHistory>(&bytes).ok()
 }
 
